@@ -11,7 +11,7 @@ PROP = dict(
           "new-format blocks lie below / straddle / above it, fallback sequencer address none|sepolia's|random, unverifiable range none | [n+0..2, ...] | "
           "[.., <p]} x chain 1-5 blocks x position p x ~155 tampers (header fields; invoke/declare/deploy-account/l1-handler fields per version with stored or "
           "recomputed tx hash; one/all transactions hashed for a foreign chain id with stored or recomputed block hash; signature; receipt fee/status/reason/gas/messages; events from/keys/data/order/emitting tx; state-diff entries with "
-          "stored or recomputed block hash; old/new root; Sierra class body; number/parent/unsupported version with valid hash). Every case is "
+          "stored or recomputed block hash; old/new root; Sierra class body; number +-1, moved by 2-5, set to 0 with the real or a zero parent (a genesis claim on a non-empty chain), parent bumped or zeroed, unsupported version - each with a recomputed valid hash). Every case is "
           "non-trivial (a committed field changed); distinct = tamper name x position x block hash x network configuration. "
           "Presentation history drawn per case (labels history:*): the tampered copy arrives at a node that has seen nothing of the genuine block p, or has "
           "verified the genuine blocks p..k ahead of the head (SanityCheckNewHeight without Store, as the sync pipeline does), or has stored p..k and reverted "
